@@ -233,6 +233,11 @@ def run(tier, seed):
             'FromMem', 'FromFile', 'NextPass']
     tlc.check_coverage(r, acts, 'ExtSort')
     chk.add_tlc(r, 'ExtSort', cfg, acts)
+    # the shortlist merge used by mergesort() and by the reverse chunk merge, as its own algorithm model
+    cfgm = 'ShortlistMergeMC' if full else 'ShortlistMergeMCq'
+    rm = tlc.require_ok(tlc.run('ShortlistMerge', cfg=cfgm, timeout=1800), 'ShortlistMerge')
+    tlc.check_coverage(rm, ['Populate', 'Step'], 'ShortlistMerge')
+    chk.add_tlc(rm, 'ShortlistMerge', cfgm, ['Populate', 'Step'])
     cases, mcases = common.gen('SortGen', 'SortGen' if full else 'SortGenq', outs=('OUT', 'OUT2'))
     profiles = ['ints', 'mixed', 'text', 'compound', 'equalreps'] if full else ['ints', 'mixed', 'compound']
     check_sort_cases(chk, cases, profiles, full)
